@@ -38,7 +38,21 @@ func buildFailing(r *rand.Rand, d *vkit.JNode, yaml bool, used *[]vkit.JPath) (a
 	if yaml {
 		missing = "$.zz_missing.nope"
 	}
-	switch r.IntN(6) {
+	switch r.IntN(7) {
+	case 6:
+		// a path that EXISTS with value null is not a missing path: Type must reject it,
+		// with or without ErrOnMissingPath(false)
+		p, ok := pickPath(r, d, func(p vkit.JPath) bool {
+			return (yaml || gjsonAddressable(p)) && d.At(p).Kind == "null" && free(p, *used)
+		})
+		if !ok {
+			return match.Any(missing), fSpec{"Any", missing, "missing-path"}, true
+		}
+		*used = append(*used, p)
+		if r.IntN(2) == 0 {
+			return match.Type[string](pathOf(p)).ErrOnMissingPath(false), fSpec{"Type", pathOf(p), "wrong-type-null-lenient"}, true
+		}
+		return match.Type[float64](pathOf(p)), fSpec{"Type", pathOf(p), "wrong-type-null"}, true
 	case 0:
 		return match.Any(missing), fSpec{"Any", missing, "missing-path"}, true
 	case 1:
@@ -98,7 +112,7 @@ func free(p vkit.JPath, used []vkit.JPath) bool {
 
 func checkC17(c *vkit.Ctx) {
 	c.P.Rule = "case = (document, 1-4 matchers mixing satisfiable ones with failing ones - missing path on Any/Type/Custom, Type of the wrong type, Custom callback error - in random order, entry point MatchJSON|MatchYAML|MatchStandaloneJSON, mode create-allowed|Update(true)|UPDATE_SNAPS=true|CI, slot missing|equal|different); oracle: exactly one Error naming match.<Name>(\"<path>\") for every failing matcher, directory digest unchanged (backdated mtimes), and a following plain call of the same test lands in ordinal 2; every 4th case is the ErrOnMissingPath(false) metamorphic check (a missing path is ignored: same stored text as without that matcher); non-trivial = >=1 failing and >=1 satisfiable matcher in one call, or the ErrOnMissingPath(false) variant; distinct by hash(document, matchers, api, mode, slot state)"
-	n := c.N(8000, 300000)
+	n := c.N(60000, 2000000)
 	for i := 0; i < n; i++ {
 		if !c.Mine(i) {
 			continue
